@@ -62,8 +62,8 @@ def classify(eng, poolhex, seg):
         sig.pop("event")
         return sig
     if _dep_batches(seg):
-        sig["class"] = "batch-op-depends-on-earlier-op"
-        return sig
+        # (a fixed finding: kept as information in the signature, suppresses nothing)
+        sig["after_dependent_batch"] = True
     sig["class"] = "other"
     return sig
 
@@ -124,16 +124,12 @@ def drive_and_validate(ctx, zr, eng, name, args, strict, stats, samples):
 
 def run(ctx):
     rnd = random.Random(ctx.seed)
-    zr = V.go_build(ctx)
+    zr = V.go_build(ctx, files=["engsim.go"])
     # (A) exhaustive model runs + graph dumps
     g_full = os.path.join(ctx.scratch, "g_full.dot")
-    g_ind = os.path.join(ctx.scratch, "g_indep.dot")
     r1 = V.tlc(ctx, "MC_ZEngine", "MC_ZEngine.cfg", timeout=600, extra=["-dump", "dot,actionlabels", g_full], tag="mc-full")
     V.require_model_ok(ctx, r1, "MC_ZEngine")
-    r2 = V.tlc(ctx, "MC_ZEngine", "MC_ZEngine_indep.cfg", timeout=600, extra=["-dump", "dot,actionlabels", g_ind], tag="mc-indep")
-    V.require_model_ok(ctx, r2, "MC_ZEngine_indep")
-    ctx.log("model: %d distinct states, %d transitions (full); %d / %d (independent batches)" % (
-        r1.distinct, r1.generated, r2.distinct, r2.generated))
+    ctx.log("model: %d distinct states, %d transitions" % (r1.distinct, r1.generated))
 
     stats = dict(events=0, segments=0, reads=0, mismatches=0, info_mismatches=0, edges_covered=0,
                  graph_edges=0, steps=0, runs=[])
@@ -158,19 +154,16 @@ def run(ctx):
                            True, stats, samples)
     for p in mpools:
         ps = str(p)
-        # mem: general corpus with the triggers of the two recorded findings kept out
-        # (independent batches, prefix-free key pools); fully strict on everything else
+        # mem: general corpus with the trigger of the recorded finding kept out
+        # (prefix-free key pools); fully strict on everything else
         drive_and_validate(ctx, zr, "mem", "mem-graph-p" + ps,
-                           ["-dot", g_ind, "-seed", seed, "-pool", ps, "-limit", limit, "-full", full],
+                           ["-dot", g_full, "-seed", seed, "-pool", ps, "-limit", limit, "-full", full],
                            True, stats, samples)
         drive_and_validate(ctx, zr, "mem", "mem-rand-p" + ps,
-                           ["-random", nrand, "-len", "80", "-seed", seed, "-pool", ps, "-indep", "-defwb"],
+                           ["-random", nrand, "-len", "80", "-seed", seed, "-pool", ps, "-defwb"],
                            True, stats, samples)
-    # isolate stages: produce the recorded findings' triggers on purpose; a failure that does
+    # isolate stage: produce the recorded finding's trigger on purpose; a failure that does
     # not carry the finding's signature is a VIOLATION
-    drive_and_validate(ctx, zr, "mem", "mem-isolate-batch",
-                       ["-dot", g_full, "-seed", seed, "-pool", "0", "-limit", "12000" if ctx.quick() else "0", "-full", "1"],
-                       True, stats, samples)
     drive_and_validate(ctx, zr, "mem", "mem-isolate-prefix",
                        ["-random", "100" if ctx.quick() else "1000", "-len", "80", "-seed", seed,
                         "-pool", str([1, 4, 2, 3, 5][ctx.seed % 5]), "-indep"],
@@ -190,7 +183,7 @@ def run(ctx):
         traces_validated_against_impl=stats["segments"],
         samples=samples or [{"note": "no sample"}],
         exhaustive=not ctx.quick(),
-        model_runs=[dict(cfg="MC_ZEngine.cfg", **r1.summary()), dict(cfg="MC_ZEngine_indep.cfg", **r2.summary())],
+        model_runs=[dict(cfg="MC_ZEngine.cfg", **r1.summary())],
         graph_edges=stats["graph_edges"], graph_edges_replayed=stats["edges_covered"],
         events_validated=stats["events"], read_results_checked=stats["reads"],
         mismatching_segments=stats["mismatches"], rocksdb_shim_info_mismatches=stats["info_mismatches"],
